@@ -1,7 +1,8 @@
 ----------------------------- MODULE MC_ReplaceM ----------------------------
-EXTENDS ReplaceM, TLC
+EXTENDS ReplaceM, ReplReq, TLC
 
-CONSTANT Deep     \* TRUE: also all pairs of replacements (135 845 inputs, minutes)
+CONSTANT Deep,    \* TRUE: also all pairs of replacements (135 845 inputs, minutes)
+         AttrScope \* "no" / "slim" / "full": inputs with attribution (C06 requirement)
 
 cA == 97
 cX == 120
@@ -36,9 +37,46 @@ Inputs ==
           UNION {{<<cs, r1 \o r2>> : cs \in Streams(t), r1 \in SlimRepls(Len(t)), r2 \in SlimRepls(Len(t))} :
                   t \in {<<cA, cA, NL, cA>>, <<cA, NL, cA, cA>>, <<cA, NL>>}})
 
+(* attribution: every chunk of a stream mapped the same way - to its own     *)
+(* position in a file whose recorded content is the text itself (content    *)
+(* matches), one column further (content differs), without content, with a  *)
+(* name - or not mapped at all; replacements with and without names         *)
+FileA == <<97, 46, 106, 115>>
+NameN == <<110, 48>>
+NameR == <<114>>
+AttrKinds == {"none", "same", "shift", "nocontent", "named"}
+WithAttr(cs, kind, t) ==
+  [k \in 1..Len(cs) |->
+     [x |-> cs[k].x, gl |-> cs[k].gl, gc |-> cs[k].gc,
+      a |-> IF kind = "none" \/ (kind = "named" /\ k = 2) THEN Unmapped
+            ELSE [m |-> TRUE, f |-> FileA, hc |-> kind # "nocontent",
+                  ct |-> IF kind = "nocontent" THEN <<>> ELSE t,
+                  l |-> cs[k].gl, c |-> cs[k].gc + (IF kind = "shift" THEN 1 ELSE 0),
+                  hn |-> kind = "named", n |-> IF kind = "named" THEN NameN ELSE <<>>]]]
+ReplN(s, e, c, n) == [s |-> s, e |-> e, c |-> c, n |-> n, enf |-> 1, api |-> "replace"]
+AttrRepls(n) ==
+  {<<ReplN(p[1], p[2], c, nm)>> :
+     p \in {q \in (0..(n + 1)) \X (0..(n + 1)) : q[1] <= q[2]},
+     c \in {<<>>, <<cX>>, <<cX, NL, cX>>}, nm \in {<<>>, <<NameR>>}}
+AttrTexts == IF AttrScope = "full" THEN {<<cA, cA>>, <<cA, cA, NL, cA>>, <<cA, NL, cA, cA>>, <<cA, cA, cA>>}
+             ELSE {<<cA, cA>>, <<cA, cA, NL, cA>>}
+AttrInputs ==
+  UNION {{<<WithAttr(cs, kind, t), r>> : cs \in Streams(t), kind \in AttrKinds, r \in AttrRepls(Len(t))} :
+           t \in AttrTexts}
+  \cup UNION {{<<WithAttr(cs, kind, t), r1 \o r2>> : cs \in Streams(t),
+                  kind \in (IF AttrScope = "full" THEN {"same", "named"} ELSE {}),
+                  r1 \in AttrRepls(Len(t)), r2 \in {x \in AttrRepls(Len(t)) : x[1].c = <<cX>> /\ x[1].n = <<>>}} :
+                t \in {<<cA, cA, NL, cA>>}}
+
 VARIABLE input
-Init == input \in Inputs
+Init == input \in (IF AttrScope = "no" THEN Inputs ELSE AttrInputs)
 Next == UNCHANGED input
 Spec == Init /\ [][Next]_input
-DesignOK == ReplaceOK(input[1], input[2])
+AttrOK(cs, repls) ==
+  LET text == OutText(cs)
+      res == ReplaceStream(cs, EndPos(text), Sorted(repls))
+  IN ReplaceKeepsAttribution(cs, res.chunks, repls)
+DesignOK ==
+  /\ ReplaceOK(input[1], input[2])
+  /\ (input[1] # <<>> /\ "a" \in DOMAIN input[1][1]) => AttrOK(input[1], input[2])
 =============================================================================
